@@ -119,6 +119,20 @@ CLAIMED = {
         "pysam/htslib writes the BAM faithfully; interpreter in props/c06.py",
         "DESIGN.md section 4 C06",
     ),
+    "C01": (
+        "end-to-end monitor: genotype() on simulated error-free BAMs; precondition decided by the exhaustive structure evaluator on the run's own region depths; counterfactual / evidence-based classifiers for listed defects",
+        "Error-free samples of admissible multisets of 1-4 catalogued alleles (deletion, extra copies, left/right fusions "
+        "with and without own core variants, SNP / MNP / insertion / deletion alleles, close cis indel+SNP pairs) are written "
+        "as real BAM files for generated databases on either strand (with/without pseudogene) and for small shipped genes, "
+        "read length 50-250, depth 20-50, profile from a simulated two-copy reference BAM; genotype() must report the planted "
+        "major combination among its best solutions and every best solution must carry exactly the planted variants, "
+        "whenever the planted structure is optimal for the region depths the run itself computed (exhaustive evaluator). "
+        "A discrepancy counts as a known finding only if an exact observable of the listed mechanism is present "
+        "(vanishes with phase off; zero support next to a cis indel; realigner support differs from ground-truth read "
+        "count; non-unique indel placement).",
+        "read simulator gen/reads.py (alignments written directly, indels left-aligned as aligners do); ref/cnref.py",
+        "DESIGN.md section 4 C01",
+    ),
 }
 
 NOT_YET = {}
